@@ -829,11 +829,136 @@ Proof.
   - cbn [fst]. eapply inv_struct; [| | |exact I2]; reflexivity.
 Qed.
 
+(* ---------- the view's own units API and views written with views ---------- *)
+Lemma inv_touch_view h i s w : Inv h -> nth_error (streams h) i = Some s -> Inv (touch_view h s w).
+Proof.
+  intros I Hs. destruct w; simpl.
+  - exact I.
+  - destruct (inv_by_mass h i s I Hs) as (A & _). exact A.
+  - eapply inv_store_vol; eauto. eapply by_volume_ok; eauto.
+Qed.
+
+Lemma xfer_vol_ok h vo vs pko pks : vv_pkg vo = pko -> vv_pkg vs = pks ->
+  forall vals ro rs k, vrow_ok pko ro -> vrow_ok pks rs ->
+  vrow_ok pko (snd (fst (xfer_vol Vf pkgs h vo vs ro rs k vals))) /\
+  vrow_ok pks (snd (xfer_vol Vf pkgs h vo vs ro rs k vals)) /\
+  vsrc (snd (fst (xfer_vol Vf pkgs h vo vs ro rs k vals))) = vsrc ro /\
+  vsrc (snd (xfer_vol Vf pkgs h vo vs ro rs k vals)) = vsrc rs.
+Proof.
+  intros PO PS. induction vals as [|x t IH]; intros ro rs k OKo OKs.
+  - simpl. auto.
+  - cbn [xfer_vol]. destruct (qzerob x).
+    + specialize (IH ro rs (S k) OKo OKs).
+      destruct (xfer_vol Vf pkgs h vo vs ro rs (S k) t) as [[o ro'] rs']. exact IH.
+    + destruct (vfactor_ok h vo ro k pko PO OKo) as (_ & FO & FS).
+      destruct (vfactor Vf pkgs h vo ro k) as [Vo ro1]. cbn [fst snd] in *.
+      destruct (vfactor_ok h vs rs k pks PS OKs) as (_ & FO' & FS').
+      destruct (vfactor Vf pkgs h vs rs k) as [Vd rs1]. cbn [fst snd] in *.
+      specialize (IH ro1 rs1 (S k) FO FO').
+      destruct (xfer_vol Vf pkgs h vo vs ro1 rs1 (S k) t) as [[o ro'] rs']. cbn [fst snd] in *.
+      destruct IH as (A & B & C & D). repeat split; auto; congruence.
+Qed.
+
+Lemma vol_ok_upd h s vv r x y :
+  vol_ok h s vv -> nth_error (vv_rows vv) r = Some y -> vsrc x = vsrc y -> vrow_ok (pkg s) x ->
+  vol_ok h s (mkvv (upd (vv_rows vv) r x) (vv_tp vv) (vv_pkg vv)).
+Proof.
+  intros (A & B & C & F) Hr E OK. repeat split; simpl; auto.
+  - rewrite (map_vsrc_upd _ _ _ _ Hr E). exact A.
+  - apply Forall_upd; auto.
+Qed.
+
+Lemma vol_ok_struct h h' s v : arrs h' = arrs h -> vol_ok h s v -> vol_ok h' s v.
+Proof. intros A. apply vol_ok_ext. apply srcs_ext. intros _. unfold getarr. rewrite A. reflexivity. Qed.
+
+Lemma inv_assign_view h i j s o w :
+  Inv h -> nth_error (streams h) i = Some s -> nth_error (streams h) j = Some o ->
+  Inv (fst (assign_view Vf MWf pkgs h s o w)).
+Proof.
+  intros I Hs Ho. unfold assign_view.
+  destruct (multi s || multi o || negb (Nat.eqb (pkg s) (pkg o))); [exact I|].
+  destruct w.
+  - destruct (Nat.eqb (sdata s) (sdata o)); [exact I|]. cbn [fst]. eapply inv_struct; eauto.
+  - destruct (inv_by_mass h j o I Ho) as (I1 & _ & _ & _ & S1 & _).
+    destruct (by_mass h o) as [h1 mo]. cbn [fst snd] in *.
+    assert (Hs1 : nth_error (streams h1) i = Some s) by congruence.
+    destruct (inv_by_mass h1 i s I1 Hs1) as (I2 & _).
+    destruct (by_mass h1 s) as [h2 ms]. cbn [fst snd] in *.
+    destruct (Nat.eqb (cch s) (cch o)); [exact I2|].
+    destruct (mv_rows ms) as [|[d sd] tl]; [exact I2|].
+    destruct (mv_rows mo) as [|[e se] tl']; [exact I2|].
+    cbn [fst]. eapply inv_struct; [| | |exact I2]; reflexivity.
+  - pose proof (by_volume_ok h j o I Ho) as OKo.
+    pose proof (inv_store_vol h j o _ I Ho OKo) as I1.
+    set (vo := by_volume h o) in *. set (h1 := store_vol h o vo) in *.
+    assert (Hs1 : nth_error (streams h1) i = Some s) by exact Hs.
+    pose proof (by_volume_ok h1 i s I1 Hs1) as OKs.
+    pose proof (inv_store_vol h1 i s _ I1 Hs1 OKs) as I2.
+    set (vs := by_volume h1 s) in *. set (h2 := store_vol h1 s vs) in *.
+    destruct (Nat.eqb (cch s) (cch o) && Nat.eqb (tc s) (tc o)); [exact I2|].
+    destruct (vv_rows vs) as [|rs tl] eqn:RS; [exact I2|].
+    destruct (vv_rows vo) as [|ro tl'] eqn:RO; [exact I2|].
+    set (h3 := put_row h2 (vr_dct rs) (zero_like (getrow h2 (vr_dct rs)))).
+    assert (I3 : Inv h3) by (eapply inv_struct; [| | |exact I2]; reflexivity).
+    assert (OKro : vrow_ok (pkg o) ro).
+    { destruct OKo as (_ & _ & _ & F). rewrite RO in F. inversion F; auto. }
+    assert (OKrs : vrow_ok (pkg s) rs).
+    { destruct OKs as (_ & _ & _ & F). rewrite RS in F. inversion F; auto. }
+    assert (PO : vv_pkg vo = pkg o) by (destruct OKo as (_ & _ & C & _); exact C).
+    assert (PS : vv_pkg vs = pkg s) by (destruct OKs as (_ & _ & C & _); exact C).
+    destruct (xfer_vol_ok h3 vo vs (pkg o) (pkg s) PO PS (getrow h3 (vr_dct ro)) ro rs O OKro OKrs) as (A & B & C & D).
+    destruct (xfer_vol Vf pkgs h3 vo vs ro rs 0 (getrow h3 (vr_dct ro))) as [[vals ro'] rs']. cbn [fst snd] in *.
+    assert (OKo3 : vol_ok h3 o (mkvv (upd (ro :: tl') 0 ro') (vv_tp vo) (vv_pkg vo))).
+    { rewrite <- RO. apply (vol_ok_upd h3 o vo 0 ro' ro); [eapply vol_ok_struct; [|exact OKo]; reflexivity | rewrite RO; reflexivity | exact C | exact A]. }
+    pose proof (inv_store_vol h3 j o _ I3 Ho OKo3) as I4.
+    assert (OKs4 : vol_ok (store_vol h3 o (mkvv (upd (ro :: tl') 0 ro') (vv_tp vo) (vv_pkg vo))) s
+                          (mkvv (upd (rs :: tl) 0 rs') (vv_tp vs) (vv_pkg vs))).
+    { rewrite <- RS. apply (vol_ok_upd _ s vs 0 rs' rs); [eapply vol_ok_struct; [|exact OKs]; reflexivity | rewrite RS; reflexivity | exact D | exact B]. }
+    pose proof (inv_store_vol _ i s _ I4 Hs OKs4) as I5.
+    cbn [fst]. eapply inv_struct; [| | |exact I5]; reflexivity.
+Qed.
+
+Lemma inv_copy_row_view h i s w r1 r2 :
+  Inv h -> nth_error (streams h) i = Some s -> Inv (fst (copy_row_view Vf MWf pkgs h s w r1 r2)).
+Proof.
+  intros I Hs. unfold copy_row_view. destruct (negb (multi s)); [exact I|].
+  destruct w.
+  - destruct (nth_error (rowrefs h s) r1); [|exact I]. destruct (nth_error (rowrefs h s) r2); [|exact I].
+    destruct (Nat.eqb r1 r2); [exact I|]. cbn [fst]. eapply inv_struct; eauto.
+  - destruct (inv_by_mass h i s I Hs) as (I1 & _).
+    destruct (by_mass h s) as [h1 mv]. cbn [fst snd] in *.
+    destruct (nth_error (mv_rows mv) r1) as [[d sd]|]; [|exact I1].
+    destruct (nth_error (mv_rows mv) r2) as [[e se]|]; [|exact I1].
+    destruct (Nat.eqb r1 r2); [exact I1|]. cbn [fst]. eapply inv_struct; [| | |exact I1]; reflexivity.
+  - pose proof (by_volume_ok h i s I Hs) as OK.
+    pose proof (inv_store_vol h i s _ I Hs OK) as I1.
+    set (vv := by_volume h s) in *. set (h1 := store_vol h s vv) in *.
+    destruct (nth_error (vv_rows vv) r1) as [rd|] eqn:R1; [|exact I1].
+    destruct (nth_error (vv_rows vv) r2) as [ro|] eqn:R2; [|exact I1].
+    destruct (Nat.eqb r1 r2) eqn:Q; [exact I1|]. apply Nat.eqb_neq in Q.
+    set (h2 := put_row h1 (vr_dct rd) (zero_like (getrow h1 (vr_dct rd)))).
+    assert (I2 : Inv h2) by (eapply inv_struct; [| | |exact I1]; reflexivity).
+    assert (PK : vv_pkg vv = pkg s) by (destruct OK as (_ & _ & C & _); exact C).
+    assert (OKd : vrow_ok (pkg s) rd).
+    { destruct OK as (_ & _ & _ & F). apply (proj1 (Forall_forall _ _) F). eapply nth_error_In; eauto. }
+    assert (OKo : vrow_ok (pkg s) ro).
+    { destruct OK as (_ & _ & _ & F). apply (proj1 (Forall_forall _ _) F). eapply nth_error_In; eauto. }
+    destruct (xfer_vol_ok h2 vv vv (pkg s) (pkg s) PK PK (getrow h2 (vr_dct ro)) ro rd O OKo OKd) as (A & B & C & D).
+    destruct (xfer_vol Vf pkgs h2 vv vv ro rd 0 (getrow h2 (vr_dct ro))) as [[vals ro'] rd']. cbn [fst snd] in *.
+    assert (OK2 : vol_ok h2 s vv) by (eapply vol_ok_struct; [|exact OK]; reflexivity).
+    pose proof (vol_ok_upd h2 s vv r2 ro' ro OK2 R2 C A) as OKa.
+    assert (R1' : nth_error (vv_rows (mkvv (upd (vv_rows vv) r2 ro') (vv_tp vv) (vv_pkg vv))) r1 = Some rd).
+    { simpl. rewrite nth_error_upd_other by auto. exact R1. }
+    pose proof (vol_ok_upd h2 s _ r1 rd' rd OKa R1' D B) as OKb. simpl in OKb.
+    pose proof (inv_store_vol h2 i s _ I2 Hs OKb) as I3.
+    cbn [fst]. eapply inv_struct; [| | |exact I3]; reflexivity.
+Qed.
+
 (* ---------- every operation keeps the invariant; so does every history ---------- *)
 Lemma inv_step h o : Inv h -> Inv (fst (step Vf MWf pkgs utab h o)).
 Proof.
   intros I. unfold step.
-  destruct o as [ |i w|i w|i|i u r k|i u r k v|i u|i u v|i w r k v|i w v|i v|i v|i p|i l|i j f p t|i|i j|i k|i k];
+  destruct o as [ |i w|i w|i|i u r k|i u r k v|i u|i u v|i w r k v|i w v|i v|i v|i p|i l|i j f p t|i|i j|i k|i k|i w u r k|i w u r k v|i j w|i w r1 r2];
     try exact I;
     (destruct (nth_error (streams h) i) as [s|] eqn:Hs; [|exact I]).
   - destruct w; [exact I| |].
@@ -860,6 +985,16 @@ Proof.
   - destruct (nth_error (streams h) j) as [o|]; [|exact I]. apply inv_copy_like; auto.
   - apply inv_reset_thermo; auto.
   - apply inv_round_trip; auto.
+  - destruct (conv utab w u) as [f|e].
+    + unfold lift. pose proof (inv_get_item h i s w r k I Hs) as X.
+      destruct (get_item Vf MWf pkgs h s w r k) as [h1 [x|e]]; exact X.
+    + cbn [fst]. apply inv_touch_view with (i := i); auto.
+  - destruct (conv utab w u) as [f|e].
+    + apply inv_set_item with (i := i); auto.
+    + cbn [fst]. apply inv_touch_view with (i := i); auto.
+  - destruct (nth_error (streams h) j) as [o|] eqn:Ho; [|exact I].
+    destruct (Nat.eqb i j); [exact I|]. apply inv_assign_view with (i := i) (j := j); auto.
+  - apply inv_copy_row_view with (i := i); auto.
 Qed.
 
 Lemma inv_run ops : forall h, Inv h -> Inv (fst (run Vf MWf pkgs utab h ops)).
@@ -1056,23 +1191,25 @@ Qed.
 
 (* ---------- F_vol is the sum of the volumetric view ---------- *)
 Lemma vol_row_sum F (f : nat -> Q) : ~ F == 0 -> forall (r : vec) (c : list nat),
-  1000 * qsum (map2 (fun m g => (m / F) * f g) r c) * F == qsum (map2 (fun m g => m * (1000 * f g)) r c).
+  1000 * qsum (map2 (fun z g => z * f g) (vdivs r F) c) * F == qsum (map2 (fun m g => m * (1000 * f g)) r c).
 Proof.
   intros NZ. induction r as [|x r IH]; intros [|g c]; simpl; try ring.
-  rewrite <- IH. field. exact NZ.
+  rewrite <- IH. unfold vdivs. field. exact NZ.
 Qed.
 
 Lemma F_vol_is_sum h s : ~ F_mol h s == 0 ->
   F_vol Vf pkgs h s ==
-  qsum (map (fun x => qsum (map2 (fun m g => m * (1000 * Vf g (base (src_phase h (snd x)))
+  qsum (map (fun x => qsum (map2 (fun m g => m * (1000 * Vf g (base (fst x))
                                                      (fst (gettp h (tc s))) (snd (gettp h (tc s)))))
-                                 (getrow h (fst x)) (chems pkgs (pkg s)))) (srcs h s)).
+                                 (snd x) (chems pkgs (pkg s))))
+            (combine (cur_phases h s) (all_rows h s))).
 Proof.
-  intros NZ. unfold F_vol. rewrite (proj2 (qzerob_false _) NZ). unfold vmix.
+  intros NZ. unfold F_vol. rewrite (proj2 (qzerob_false _) NZ). unfold vmix, vmix_key, key_of. cbn [k_rows k_T k_P].
   set (F := F_mol h s) in *. set (T := fst (gettp h (tc s))). set (P := snd (gettp h (tc s))).
-  induction (srcs h s) as [|x l IH]; simpl; [ring|].
+  generalize (all_rows h s). generalize (cur_phases h s).
+  induction l as [|p l IH]; intros [|r rows]; simpl; try ring.
   rewrite <- IH.
-  rewrite <- (vol_row_sum F (fun g => Vf g (base (src_phase h (snd x))) T P) NZ (getrow h (fst x)) (chems pkgs (pkg s))).
+  rewrite <- (vol_row_sum F (fun g => Vf g (base p) T P) NZ r (chems pkgs (pkg s))).
   ring.
 Qed.
 
@@ -1215,6 +1352,613 @@ Proof.
         assert (E : v == (v / V) * V) by (field; exact VNZ). rewrite E, Q0. ring. }
       rewrite (proj2 (qzerob_false _) XNZ). rewrite AG.
       eexists _, _. split; [reflexivity|]. rewrite X1. field. exact VNZ.
+Qed.
+
+(* ====================================================================================
+   State kept between calls outside the indexers: units caches and the property memo
+   ==================================================================================== *)
+Lemma cfactor_uh U w u : uh (fst (cfactor utab U w u)) = uh U /\ u_pm (fst (cfactor utab U w u)) = u_pm U.
+Proof. unfold cfactor. destruct (fac_find w u (u_fac U)); auto. destruct (conv utab w u); auto. Qed.
+Lemma flow_lookup_uh U u : uh (fst (flow_lookup utab U u)) = uh U /\ u_pm (fst (flow_lookup utab U u)) = u_pm U.
+Proof.
+  unfold flow_lookup. destruct (flow_find u (u_flow U)); auto. destruct (dim_of utab u); auto.
+  destruct (cfactor_uh U v u) as (A & B). destruct (cfactor utab U v u) as [U1 [f|e]]; simpl in *; auto.
+Qed.
+Lemma F_volU_uh U i s : uh (fst (F_volU Vf pkgs U i s)) = uh U /\ u_flow (fst (F_volU Vf pkgs U i s)) = u_flow U
+  /\ u_fac (fst (F_volU Vf pkgs U i s)) = u_fac U.
+Proof.
+  unfold F_volU. destruct (qzerob (F_mol (uh U) s)); auto.
+  destruct (pm_get U i) as [[k' v]|]; auto. destruct (pkey_eqb k' (key_of (uh U) s)); auto.
+Qed.
+Lemma totalU_uh U i s w : uh (fst (totalU Vf MWf pkgs U i s w)) = uh U /\ u_flow (fst (totalU Vf MWf pkgs U i s w)) = u_flow U
+  /\ u_fac (fst (totalU Vf MWf pkgs U i s w)) = u_fac U.
+Proof. destruct w; simpl; auto. apply F_volU_uh. Qed.
+
+Lemma inv_set_totalU U i s w v :
+  Inv (uh U) -> nth_error (streams (uh U)) i = Some s -> Inv (uh (fst (set_totalU Vf MWf pkgs U i s w v))).
+Proof.
+  intros I Hs. unfold set_totalU. destruct (totalU_uh U i s w) as (A & _).
+  destruct (totalU Vf MWf pkgs U i s w) as [U1 F]. cbn [fst] in A.
+  assert (I1 : Inv (uh U1)) by (rewrite A; exact I).
+  assert (MR : forall f, Inv (map_rows (uh U1) f (rowrefs (uh U1) s))).
+  { intros f. destruct (map_rows_struct (uh U1) f (rowrefs (uh U1) s)) as (X & Y & Z). eapply inv_struct; eauto. }
+  unfold scale_all, empty_all.
+  destruct w.
+  - destruct (qzerob F); cbn [fst uh with_heap]; [exact I1|apply MR].
+  - destruct (negb (qzerob F)); cbn [fst uh with_heap]; [apply MR|].
+    destruct (negb (qzerob v)); cbn [fst uh with_heap]; [exact I1|apply MR].
+  - destruct (qzerob F); cbn [fst uh with_heap]; [exact I1|apply MR].
+Qed.
+
+Lemma inv_stepU U o : Inv (uh U) -> Inv (uh (fst (stepU Vf MWf pkgs utab U o))).
+Proof.
+  intros I.
+  assert (D : Inv (uh (fst (liftU U (step Vf MWf pkgs utab (uh U) o))))).
+  { unfold liftU. cbn [fst uh with_heap]. apply inv_step. exact I. }
+  unfold stepU.
+  destruct o as [ |i w|i w|i|i u r k|i u r k v|i u|i u v|i w r k v|i w v|i v|i v|i p|i l|i j f p t|i|i j|i k|i k|i w u r k|i w u r k v|i j w|i w r1 r2];
+    try exact D;
+    (destruct (nth_error (streams (uh U)) i) as [s|] eqn:Hs; [|try exact I]).
+  - destruct (totalU_uh U i s w) as (A & _). destruct (totalU Vf MWf pkgs U i s w) as [U1 x]. cbn [fst] in *. rewrite A. exact I.
+  - destruct (flow_lookup_uh U u) as (A & _). destruct (flow_lookup utab U u) as [U1 [[w f]|e]]; cbn [fst] in *.
+    + unfold liftU, lift. cbn [fst uh with_heap]. rewrite A.
+      pose proof (inv_get_item (uh U) i s w r k I Hs) as X.
+      destruct (get_item Vf MWf pkgs (uh U) s w r k) as [h1 [x|e]]; exact X.
+    + rewrite A. exact I.
+  - destruct (flow_lookup_uh U u) as (A & _). destruct (flow_lookup utab U u) as [U1 [[w f]|e]]; cbn [fst] in *.
+    + unfold liftU. cbn [fst uh with_heap]. rewrite A. apply inv_set_item with (i := i); auto.
+    + rewrite A. exact I.
+  - destruct (flow_lookup_uh U u) as (A & _). destruct (flow_lookup utab U u) as [U1 [[w f]|e]]; cbn [fst] in *.
+    + destruct (totalU_uh U1 i s w) as (B & _). destruct (totalU Vf MWf pkgs U1 i s w) as [U2 x]. cbn [fst] in *.
+      rewrite B, A. exact I.
+    + rewrite A. exact I.
+  - destruct (flow_lookup_uh U u) as (A & _). destruct (flow_lookup utab U u) as [U1 [[w f]|e]]; cbn [fst] in *.
+    + apply inv_set_totalU; rewrite A; auto.
+    + rewrite A. exact I.
+  - apply inv_set_totalU; auto.
+  - pose proof (inv_step (uh U) (OPhases i l) I) as X. unfold liftU.
+    destruct (step Vf MWf pkgs utab (uh U) (OPhases i l)) as [h1 x]. cbn [fst snd] in *.
+    match goal with |- context [if ?c then _ else _] => destruct c end; exact X.
+  - pose proof (inv_step (uh U) (OUnlink i) I) as X. unfold liftU.
+    destruct (step Vf MWf pkgs utab (uh U) (OUnlink i)) as [h1 x]. cbn [fst snd] in *.
+    destruct (is_none x); exact X.
+  - pose proof (inv_step (uh U) (OUnlink i) I) as X. unfold liftU.
+    destruct (step Vf MWf pkgs utab (uh U) (OUnlink i)) as [h1 x]. cbn [fst snd] in *.
+    destruct (is_none x); exact X.
+  - pose proof (inv_step (uh U) (OThermo i k) I) as X. unfold liftU.
+    destruct (step Vf MWf pkgs utab (uh U) (OThermo i k)) as [h1 x]. cbn [fst snd] in *.
+    destruct (Nat.eqb (pkg s) k); exact X.
+  - destruct (cfactor_uh U w u) as (A & _). destruct (cfactor utab U w u) as [U1 [f|e]]; cbn [fst] in *.
+    + unfold liftU, lift. cbn [fst uh with_heap]. rewrite A.
+      pose proof (inv_get_item (uh U) i s w r k I Hs) as X.
+      destruct (get_item Vf MWf pkgs (uh U) s w r k) as [h1 [x|e]]; exact X.
+    + cbn [fst uh with_heap]. rewrite A. apply inv_touch_view with (i := i); auto.
+  - destruct (cfactor_uh U w u) as (A & _). destruct (cfactor utab U w u) as [U1 [f|e]]; cbn [fst] in *.
+    + unfold liftU. cbn [fst uh with_heap]. rewrite A. apply inv_set_item with (i := i); auto.
+    + cbn [fst uh with_heap]. rewrite A. apply inv_touch_view with (i := i); auto.
+Qed.
+
+Lemma inv_runU ops : forall U, Inv (uh U) -> Inv (uh (fst (runU Vf MWf pkgs utab U ops))).
+Proof.
+  induction ops as [|o ops IH]; intros U I; simpl; auto.
+  pose proof (inv_stepU U o I) as I1. destruct (stepU Vf MWf pkgs utab U o) as [U1 x]. cbn [fst] in I1.
+  specialize (IH U1 I1). destruct (runU Vf MWf pkgs utab U1 ops) as [U2 xs]. exact IH.
+Qed.
+
+(* ---------- the units caches always agree with the oracle ---------- *)
+Definition oracle_flow (u : nat) : res (view * Q) :=
+  match unit_of utab u with Some x => Ok x | None => Err EDim end.
+Definition UC U : Prop :=
+  (forall w u f, fac_find w u (u_fac U) = Some f -> conv utab w u = Ok f) /\
+  (forall u x, flow_find u (u_flow U) = Some x -> unit_of utab u = Some x).
+
+Lemma view_eqb_refl w : view_eqb w w = true.
+Proof. destruct w; reflexivity. Qed.
+Lemma view_eqb_eq a b : view_eqb a b = true -> a = b.
+Proof. destruct a, b; simpl; intros H; try reflexivity; discriminate. Qed.
+
+Lemma UC_ext U U' : u_flow U' = u_flow U -> u_fac U' = u_fac U -> UC U -> UC U'.
+Proof. intros A B (X & Y). split; intros; [apply X; rewrite <- B; auto | apply Y; rewrite <- A; auto]. Qed.
+
+Lemma cfactor_ok U w u : UC U -> snd (cfactor utab U w u) = conv utab w u /\ UC (fst (cfactor utab U w u)).
+Proof.
+  intros (X & Y). unfold cfactor. destruct (fac_find w u (u_fac U)) as [f|] eqn:E.
+  - simpl. split; [symmetry; apply X; exact E|split; assumption].
+  - destruct (conv utab w u) as [f|e] eqn:C; simpl; (split; [reflexivity|]); [|split; assumption].
+    split; [|exact Y]. intros w' u' f'. simpl.
+    destruct (view_eqb w' w && Nat.eqb u' u) eqn:Q.
+    + apply andb_prop in Q. destruct Q as (Q1 & Q2). apply view_eqb_eq in Q1. apply Nat.eqb_eq in Q2. subst.
+      intros H; inversion H; subst. exact C.
+    + apply X.
+Qed.
+
+Lemma flow_lookup_ok U u : UC U -> snd (flow_lookup utab U u) = oracle_flow u /\ UC (fst (flow_lookup utab U u)).
+Proof.
+  intros UCU. pose proof UCU as (X & Y). unfold flow_lookup, oracle_flow.
+  destruct (flow_find u (u_flow U)) as [x|] eqn:E.
+  - simpl. rewrite (Y u x E). split; [reflexivity|exact UCU].
+  - unfold dim_of. destruct (unit_of utab u) as [[w f0]|] eqn:UO; simpl; [|split; [reflexivity|exact UCU]].
+    destruct (cfactor_ok U w u UCU) as (A & B).
+    assert (CV : conv utab w u = Ok f0) by (unfold conv; rewrite UO, view_eqb_refl; reflexivity).
+    destruct (cfactor utab U w u) as [U1 q]. cbn [fst snd] in *. rewrite CV in A. subst q.
+    simpl. split; [reflexivity|]. destruct B as (X1 & Y1). split; [exact X1|].
+    intros u' x. simpl. destruct (Nat.eqb u' u) eqn:Q.
+    + apply Nat.eqb_eq in Q. subst. intros H; inversion H; subst. exact UO.
+    + apply Y1.
+Qed.
+
+Lemma UC_stepU U o : UC U -> UC (fst (stepU Vf MWf pkgs utab U o)).
+Proof.
+  intros UCU.
+  assert (D : UC (fst (liftU U (step Vf MWf pkgs utab (uh U) o)))) by (eapply UC_ext; [| |exact UCU]; reflexivity).
+  assert (ST : forall U1 i s w v, UC U1 -> UC (fst (set_totalU Vf MWf pkgs U1 i s w v))).
+  { intros U1 i s w v UC1. unfold set_totalU. destruct (totalU_uh U1 i s w) as (_ & A & B).
+    destruct (totalU Vf MWf pkgs U1 i s w) as [U2 F]. cbn [fst] in *.
+    assert (UC2 : UC U2) by (eapply UC_ext; eauto).
+    destruct w; repeat match goal with |- context [if ?c then _ else _] => destruct c end;
+      cbn [fst]; try exact UC2; (eapply UC_ext; [| |exact UC2]; reflexivity). }
+  unfold stepU.
+  destruct o as [ |i w|i w|i|i u r k|i u r k v|i u|i u v|i w r k v|i w v|i v|i v|i p|i l|i j f p t|i|i j|i k|i k|i w u r k|i w u r k v|i j w|i w r1 r2];
+    try exact D;
+    (destruct (nth_error (streams (uh U)) i) as [s|] eqn:Hs; [|try exact UCU]).
+  - destruct (totalU_uh U i s w) as (_ & A & B). destruct (totalU Vf MWf pkgs U i s w) as [U1 x]. cbn [fst] in *.
+    eapply UC_ext; eauto.
+  - destruct (flow_lookup_ok U u UCU) as (_ & B). destruct (flow_lookup utab U u) as [U1 [[w f]|e]]; cbn [fst] in *; [|exact B].
+    eapply UC_ext; [| |exact B]; reflexivity.
+  - destruct (flow_lookup_ok U u UCU) as (_ & B). destruct (flow_lookup utab U u) as [U1 [[w f]|e]]; cbn [fst] in *; [|exact B].
+    eapply UC_ext; [| |exact B]; reflexivity.
+  - destruct (flow_lookup_ok U u UCU) as (_ & B). destruct (flow_lookup utab U u) as [U1 [[w f]|e]]; cbn [fst] in *; [|exact B].
+    destruct (totalU_uh U1 i s w) as (_ & A' & B'). destruct (totalU Vf MWf pkgs U1 i s w) as [U2 x]. cbn [fst] in *.
+    eapply UC_ext; eauto.
+  - destruct (flow_lookup_ok U u UCU) as (_ & B). destruct (flow_lookup utab U u) as [U1 [[w f]|e]]; cbn [fst] in *; [|exact B].
+    apply ST. exact B.
+  - apply ST. exact UCU.
+  - unfold liftU. destruct (step Vf MWf pkgs utab (uh U) (OPhases i l)) as [h1 x]. cbn [fst snd].
+    match goal with |- context [if ?c then _ else _] => destruct c end; (eapply UC_ext; [| |exact UCU]; reflexivity).
+  - unfold liftU. destruct (step Vf MWf pkgs utab (uh U) (OUnlink i)) as [h1 x]. cbn [fst snd].
+    destruct (is_none x); (eapply UC_ext; [| |exact UCU]; reflexivity).
+  - unfold liftU. destruct (step Vf MWf pkgs utab (uh U) (OUnlink i)) as [h1 x]. cbn [fst snd].
+    destruct (is_none x); (eapply UC_ext; [| |exact UCU]; reflexivity).
+  - unfold liftU. destruct (step Vf MWf pkgs utab (uh U) (OThermo i k)) as [h1 x]. cbn [fst snd].
+    destruct (Nat.eqb (pkg s) k); (eapply UC_ext; [| |exact UCU]; reflexivity).
+  - destruct (cfactor_ok U w u UCU) as (_ & B). destruct (cfactor utab U w u) as [U1 [f|e]]; cbn [fst] in *;
+      (eapply UC_ext; [| |exact B]; reflexivity).
+  - destruct (cfactor_ok U w u UCU) as (_ & B). destruct (cfactor utab U w u) as [U1 [f|e]]; cbn [fst] in *;
+      (eapply UC_ext; [| |exact B]; reflexivity).
+Qed.
+
+Lemma UC_runU ops : forall U, UC U -> UC (fst (runU Vf MWf pkgs utab U ops)).
+Proof.
+  induction ops as [|o ops IH]; intros U I; simpl; auto.
+  pose proof (UC_stepU U o I) as I1. destruct (stepU Vf MWf pkgs utab U o) as [U1 x]. cbn [fst] in I1.
+  specialize (IH U1 I1). destruct (runU Vf MWf pkgs utab U1 ops) as [U2 xs]. exact IH.
+Qed.
+Lemma UC_buildU l : UC (buildU l).
+Proof. split; simpl; intros; discriminate. Qed.
+
+(* ---------- no operation but a package reset changes the package of a stream ---------- *)
+Definition PKP h h' : Prop :=
+  forall j s', nth_error (streams h') j = Some s' -> exists s, nth_error (streams h) j = Some s /\ pkg s' = pkg s.
+Lemma PKP_same h h' : streams h' = streams h -> PKP h h'.
+Proof. intros E j s' H. rewrite E in H. eauto. Qed.
+Lemma PKP_trans a b c : PKP a b -> PKP b c -> PKP a c.
+Proof. intros X Y j s' H. destruct (Y j s' H) as (s1 & H1 & E1). destruct (X j s1 H1) as (s0 & H0 & E0). exists s0. split; congruence. Qed.
+Lemma PKP_put h h1 i s s' :
+  streams h1 = streams h -> nth_error (streams h) i = Some s -> pkg s' = pkg s -> PKP h (put_stream h1 i s').
+Proof.
+  intros E Hs P j x H. simpl in H. rewrite E in H.
+  destruct (Nat.eq_dec j i) as [Q|N].
+  - subst j. rewrite nth_error_upd_same in H by (eapply nth_error_lt; eauto). inversion H; subst. eauto.
+  - rewrite nth_error_upd_other in H by auto. eauto.
+Qed.
+
+Ltac break_ifs := repeat match goal with
+  | |- context [match ?x with _ => _ end] => destruct x
+  | |- context [if ?c then _ else _] => destruct c
+  end.
+
+Lemma by_mass_streams h s : streams (fst (by_mass h s)) = streams h.
+Proof. unfold by_mass. destruct (c_mass (getcache h (cch s))); reflexivity. Qed.
+Lemma get_item_streams h s w r k : streams (fst (get_item Vf MWf pkgs h s w r k)) = streams h.
+Proof.
+  unfold get_item. destruct w.
+  - destruct (nth_error (rowrefs h s) r); reflexivity.
+  - pose proof (by_mass_streams h s) as B. destruct (by_mass h s) as [h1 v]. cbn [fst] in B.
+    destruct (nth_error (mv_rows v) r); exact B.
+  - destruct (nth_error (vv_rows (by_volume h s)) r) as [vr|]; [|reflexivity].
+    destruct (qzerob (nthq (getrow h (vr_dct vr)) k)); [reflexivity|].
+    destruct (vfactor Vf pkgs h (by_volume h s) vr k). reflexivity.
+Qed.
+Lemma read_mass_streams h s : streams (fst (read_mass MWf pkgs h s)) = streams h.
+Proof. unfold read_mass. pose proof (by_mass_streams h s) as B. destruct (by_mass h s). exact B. Qed.
+Lemma read_vol_streams h s : streams (fst (read_vol Vf pkgs h s)) = streams h.
+Proof. unfold read_vol. destruct (read_vrows Vf pkgs h (by_volume h s) (vv_rows (by_volume h s))). reflexivity. Qed.
+Lemma alias_flags_streams h s : streams (fst (alias_flags h s)) = streams h.
+Proof. unfold alias_flags. pose proof (by_mass_streams h s) as B. destruct (by_mass h s). exact B. Qed.
+Lemma map_rows_streams h f l : streams (map_rows h f l) = streams h.
+Proof. apply map_rows_struct. Qed.
+Lemma set_total_streams h s w v : streams (fst (set_total Vf MWf pkgs h s w v)) = streams h.
+Proof.
+  unfold set_total, scale_all, empty_all.
+  destruct w; break_ifs; cbn [fst]; try reflexivity; apply map_rows_streams.
+Qed.
+Lemma touch_view_streams h s w : streams (touch_view h s w) = streams h.
+Proof. destruct w; simpl; try reflexivity. apply by_mass_streams. Qed.
+Lemma assign_view_streams h s o w : streams (fst (assign_view Vf MWf pkgs h s o w)) = streams h.
+Proof.
+  unfold assign_view. destruct (multi s || multi o || negb (Nat.eqb (pkg s) (pkg o))); [reflexivity|].
+  destruct w.
+  - destruct (Nat.eqb (sdata s) (sdata o)); reflexivity.
+  - pose proof (by_mass_streams h o) as B1. destruct (by_mass h o) as [h1 mo]. cbn [fst] in B1.
+    pose proof (by_mass_streams h1 s) as B2. destruct (by_mass h1 s) as [h2 ms]. cbn [fst] in B2.
+    destruct (Nat.eqb (cch s) (cch o)); [cbn [fst]; congruence|].
+    destruct (mv_rows ms) as [|[d sd] tl]; [cbn [fst]; congruence|]. destruct (mv_rows mo) as [|[e se] tl']; [cbn [fst]; congruence|].
+    cbn [fst]. simpl. congruence.
+  - destruct (Nat.eqb (cch s) (cch o) && Nat.eqb (tc s) (tc o)); [reflexivity|].
+    destruct (vv_rows (by_volume (store_vol h o (by_volume h o)) s)) as [|rs tl]; [reflexivity|].
+    destruct (vv_rows (by_volume h o)) as [|ro tl']; [reflexivity|].
+    match goal with |- context [xfer_vol ?a ?b ?c ?d ?e ?f ?g ?i ?j] => destruct (xfer_vol a b c d e f g i j) as [[vals ro'] rs'] end.
+    reflexivity.
+Qed.
+Lemma copy_row_view_streams h s w r1 r2 : streams (fst (copy_row_view Vf MWf pkgs h s w r1 r2)) = streams h.
+Proof.
+  unfold copy_row_view. destruct (negb (multi s)); [reflexivity|]. destruct w.
+  - destruct (nth_error (rowrefs h s) r1); [|reflexivity]. destruct (nth_error (rowrefs h s) r2); [|reflexivity].
+    destruct (Nat.eqb r1 r2); reflexivity.
+  - pose proof (by_mass_streams h s) as B. destruct (by_mass h s) as [h1 mv]. cbn [fst] in B.
+    destruct (nth_error (mv_rows mv) r1) as [[d sd]|]; [|exact B].
+    destruct (nth_error (mv_rows mv) r2) as [[e se]|]; [|exact B].
+    destruct (Nat.eqb r1 r2); [exact B|]. cbn [fst]. simpl. exact B.
+  - destruct (nth_error (vv_rows (by_volume h s)) r1) as [rd|]; [|reflexivity].
+    destruct (nth_error (vv_rows (by_volume h s)) r2) as [ro|]; [|reflexivity].
+    destruct (Nat.eqb r1 r2); [reflexivity|].
+    match goal with |- context [xfer_vol ?a ?b ?c ?d ?e ?f ?g ?i ?j] => destruct (xfer_vol a b c d e f g i j) as [[vals ro'] rd'] end.
+    reflexivity.
+Qed.
+
+Lemma PKP_multi_to_single h i s p : nth_error (streams h) i = Some s -> PKP h (fst (multi_to_single pkgs h i s p)).
+Proof. intros Hs. unfold multi_to_single. cbn [new_row new_box new_cache fst snd]. eapply (PKP_put h _ i s); [reflexivity|exact Hs|reflexivity]. Qed.
+Lemma PKP_set_phase h i s p : nth_error (streams h) i = Some s -> PKP h (fst (set_phase pkgs h i s p)).
+Proof. intros Hs. unfold set_phase. destruct (multi s). apply PKP_multi_to_single; auto. apply PKP_same; reflexivity. Qed.
+Lemma PKP_single_to_multi h i s l : nth_error (streams h) i = Some s -> PKP h (fst (single_to_multi pkgs h i s l)).
+Proof.
+  intros Hs. unfold single_to_multi.
+  match goal with |- context [match ?x with Some _ => _ | None => _ end] => destruct x as [vals|] end; [|apply PKP_same; reflexivity].
+  frame_rows h vals rs h1. cbn [new_arr new_cache fst snd]. eapply (PKP_put h _ i s); [simpl; congruence|exact Hs|reflexivity].
+Qed.
+Lemma PKP_multi_to_multi h i s l : nth_error (streams h) i = Some s -> PKP h (fst (multi_to_multi pkgs h i s l)).
+Proof.
+  intros Hs. unfold multi_to_multi. destruct (phases_eqb (psort l) (phs s)); [apply PKP_same; reflexivity|].
+  match goal with |- context [match ?x with Some _ => _ | None => _ end] => destruct x as [vals|] end; [|apply PKP_same; reflexivity].
+  frame_rows h vals rs h1. cbn [new_arr new_cache fst snd]. eapply (PKP_put h _ i s); [simpl; congruence|exact Hs|reflexivity].
+Qed.
+Lemma PKP_set_phases h i s l : nth_error (streams h) i = Some s -> PKP h (fst (set_phases pkgs h i s l)).
+Proof.
+  intros Hs. unfold set_phases. destruct (psort l) as [|p [|q r]].
+  - apply PKP_same; reflexivity.
+  - apply PKP_set_phase; auto.
+  - destruct (multi s); [apply PKP_multi_to_multi|apply PKP_single_to_multi]; auto.
+Qed.
+Lemma PKP_link h i s o f p t : nth_error (streams h) i = Some s -> PKP h (fst (link_with h i s o f p t)).
+Proof.
+  intros Hs. unfold link_with.
+  destruct (negb (Bool.eqb (multi s) (multi o))); [apply PKP_same; reflexivity|].
+  destruct (negb (Nat.eqb (pkg s) (pkg o))); [apply PKP_same; reflexivity|].
+  destruct (multi s && f && negb (phases_eqb (phs s) (phs o))); [apply PKP_same; reflexivity|].
+  destruct (t && f && (p || multi s)); cbn [new_cache fst snd];
+    (eapply (PKP_put h _ i s); [reflexivity|exact Hs|reflexivity]).
+Qed.
+Lemma PKP_unlink h i s : nth_error (streams h) i = Some s -> PKP h (fst (unlink h i s)).
+Proof.
+  intros Hs. unfold unlink. destruct (multi s).
+  - cbn [new_cache new_box new_tp fst snd].
+    match goal with |- context [copy_rows ?a ?b] => pose proof (new_rows_frame a (map (getrow a) b)) as F; unfold copy_rows; destruct (new_rows a (map (getrow a) b)) as [rs hh] end.
+    cbn [fst snd] in F. destruct F as (_ & _ & FS). cbn [new_arr new_tp fst snd]. eapply (PKP_put h _ i s); [simpl; simpl in FS; congruence|exact Hs|reflexivity].
+  - cbn [new_cache new_box new_tp new_row fst snd]. eapply (PKP_put h _ i s); [reflexivity|exact Hs|reflexivity].
+Qed.
+Lemma copy_rows_like_streams h d x : streams (copy_rows_like h d x) = streams h.
+Proof. apply copy_rows_like_struct. Qed.
+
+Lemma PKP_copy_like h i s o same : nth_error (streams h) i = Some s -> PKP h (fst (copy_like pkgs h i s o same)).
+Proof.
+  intros Hs. unfold copy_like. destruct same; [apply PKP_same; reflexivity|].
+  destruct (negb (Nat.eqb (pkg s) (pkg o))); [apply PKP_same; reflexivity|].
+  destruct (multi s) eqn:M; destruct (multi o) eqn:MO.
+  - destruct (phases_eqb (phs s) (phs o)); apply PKP_same; try reflexivity. cbn [fst]. simpl. apply copy_rows_like_streams.
+  - destruct (pindex (phs s) (getbox h (pbox o))) as [k|].
+    + destruct (nth_error (rowrefs (empty_all h s) s) k); apply PKP_same; cbn [fst]; simpl; apply map_rows_streams.
+    + destruct (stream_shares_arr h i (sdata s)); [apply PKP_same; reflexivity|].
+      match goal with |- context [expand_rows ?a ?b ?c ?d] => pose proof (expand_rows_frame b c d a) as F; destruct (expand_rows a b c d) as [rs h1] end.
+      cbn [fst snd] in F. destruct F as (_ & _ & FS).
+      assert (E0 : streams (empty_all h s) = streams h) by apply map_rows_streams.
+      assert (G : forall hx, streams hx = upd (streams h1) i (mkstream true (sdata s) (pbox s) (psort (getbox h (pbox o) :: phs s)) (pkg s) (cch s) (tc s)) -> PKP h hx).
+      { intros hx Ex j x H. rewrite Ex, FS, E0 in H. destruct (Nat.eq_dec j i) as [Q|N].
+        - subst j. rewrite nth_error_upd_same in H by (eapply nth_error_lt; eauto). inversion H; subst. eauto.
+        - rewrite nth_error_upd_other in H by auto. eauto. }
+      destruct (pindex (psort (getbox h (pbox o) :: phs s)) (getbox h (pbox o))) as [k|].
+      * destruct (nth_error rs k); cbn [fst]; apply G; reflexivity.
+      * cbn [fst]. apply G; reflexivity.
+  - destruct (phs o) as [|p [|q r]].
+    + pose proof (PKP_single_to_multi (put_row h (sdata s) (vzero (length (getrow h (sdata s))))) i s [] Hs) as P1.
+      destruct (single_to_multi pkgs (put_row h (sdata s) (vzero (length (getrow h (sdata s))))) i s []) as [h1 x]. cbn [fst] in P1.
+      assert (P0 : PKP h h1) by (intros j y H; apply (P1 j y H)).
+      destruct x; try exact P0.
+      destruct (nth_error (streams h1) i) as [s1|]; [|exact P0]. cbn [fst].
+      eapply PKP_trans; [exact P0|]. apply PKP_same. simpl. apply copy_rows_like_streams.
+    + apply PKP_same. reflexivity.
+    + pose proof (PKP_single_to_multi (put_row h (sdata s) (vzero (length (getrow h (sdata s))))) i s (p :: q :: r) Hs) as P1.
+      destruct (single_to_multi pkgs (put_row h (sdata s) (vzero (length (getrow h (sdata s))))) i s (p :: q :: r)) as [h1 x]. cbn [fst] in P1.
+      assert (P0 : PKP h h1) by (intros j y H; apply (P1 j y H)).
+      destruct x; try exact P0.
+      destruct (nth_error (streams h1) i) as [s1|]; [|exact P0]. cbn [fst].
+      eapply PKP_trans; [exact P0|]. apply PKP_same. simpl. apply copy_rows_like_streams.
+  - apply PKP_same. reflexivity.
+Qed.
+
+Lemma put_rows_streams l : forall h vals, streams (put_rows h l vals) = streams h.
+Proof. intros. apply put_rows_struct. Qed.
+
+Lemma round_trip_streams h i s k : nth_error (streams h) i = Some s -> streams (fst (round_trip pkgs h i s k)) = streams h.
+Proof.
+  intros Hs. unfold round_trip. destruct (Nat.eqb (pkg s) k); [reflexivity|].
+  destruct (reset_none_shape h i s k) as (a & s1 & S1 & A1 & C1 & M1 & B1 & P1 & T1 & CONT).
+  destruct (reset_chemicals pkgs h i s k None) as [h1 cont]. cbn [fst snd] in *. subst cont.
+  assert (LI : (i < length (streams h))%nat) by (eapply nth_error_lt; eauto).
+  rewrite S1, nth_error_upd_same by auto.
+  assert (BACK : mkstream (multi s1) (sdata s) (pbox s1) (phs s1) (pkg s) (cch s) (tc s1) = s).
+  { rewrite M1, B1, P1, T1. destruct s; reflexivity. }
+  unfold reset_chemicals. rewrite BACK. cbn [fst].
+  assert (E : streams (put_stream h1 i s) = streams h).
+  { simpl. rewrite S1, upd_upd. apply upd_same. exact Hs. }
+  destruct (multi s1); cbn [fst].
+  - rewrite put_rows_streams, map_rows_streams. exact E.
+  - simpl. simpl in E. exact E.
+Qed.
+
+(* every operation other than a package reset of stream i keeps the package of stream i *)
+Lemma step_PKP h o : (forall i k, o <> OThermo i k) -> PKP h (fst (step Vf MWf pkgs utab h o)).
+Proof.
+  intros NT. unfold step.
+  destruct o as [ |i w|i w|i|i u r k|i u r k v|i u|i u v|i w r k v|i w v|i v|i v|i p|i l|i j f p t|i|i j|i k|i k|i w u r k|i w u r k v|i j w|i w r1 r2];
+    try (apply PKP_same; reflexivity);
+    (destruct (nth_error (streams h) i) as [s|] eqn:Hs; [|apply PKP_same; reflexivity]).
+  - apply PKP_same. destruct w; [reflexivity| |].
+    + pose proof (read_mass_streams h s) as X. destruct (read_mass MWf pkgs h s). exact X.
+    + pose proof (read_vol_streams h s) as X. destruct (read_vol Vf pkgs h s). exact X.
+  - apply PKP_same. reflexivity.
+  - apply PKP_same. pose proof (alias_flags_streams h s) as X. destruct (alias_flags h s). exact X.
+  - apply PKP_same. destruct (unit_of utab u) as [[w f]|]; [|reflexivity]. unfold lift.
+    pose proof (get_item_streams h s w r k) as X. destruct (get_item Vf MWf pkgs h s w r k) as [h1 [x|e]]; exact X.
+  - apply PKP_same. destruct (unit_of utab u) as [[w f]|]; [|reflexivity]. apply set_item_streams.
+  - apply PKP_same. destruct (unit_of utab u) as [[w f]|]; reflexivity.
+  - apply PKP_same. destruct (unit_of utab u) as [[w f]|]; [|reflexivity]. apply set_total_streams.
+  - apply PKP_same. apply set_item_streams.
+  - apply PKP_same. apply set_total_streams.
+  - apply PKP_same. reflexivity.
+  - apply PKP_same. reflexivity.
+  - apply PKP_set_phase; auto.
+  - apply PKP_set_phases; auto.
+  - destruct (nth_error (streams h) j) as [o|]; [|apply PKP_same; reflexivity].
+    destruct (Nat.eqb i j); [apply PKP_same; reflexivity|]. apply PKP_link; auto.
+  - apply PKP_unlink; auto.
+  - destruct (nth_error (streams h) j) as [o|]; [|apply PKP_same; reflexivity]. apply PKP_copy_like; auto.
+  - exfalso. eapply NT; reflexivity.
+  - apply PKP_same. apply round_trip_streams; auto.
+  - apply PKP_same. destruct (conv utab w u) as [f|e].
+    + unfold lift. pose proof (get_item_streams h s w r k) as X. destruct (get_item Vf MWf pkgs h s w r k) as [h1 [x|e]]; exact X.
+    + apply touch_view_streams.
+  - apply PKP_same. destruct (conv utab w u) as [f|e]; [apply set_item_streams|apply touch_view_streams].
+  - apply PKP_same. destruct (nth_error (streams h) j) as [o|]; [|reflexivity].
+    destruct (Nat.eqb i j); [reflexivity|]. apply assign_view_streams.
+  - apply PKP_same. apply copy_row_view_streams.
+Qed.
+
+(* ---------- the property memo: what F_vol reads is the mixture volume of the CURRENT state ---------- *)
+Hypothesis Vf_ext : forall g p T T' P P', T == T' -> P == P' -> Vf g p T P == Vf g p T' P'.
+
+Lemma vmix_row_ext' (c : list nat) p T T' P P' z' z : T' == T -> P' == P -> veqb z' z = true ->
+  qsum (map2 (fun x g => x * Vf g (base p) T' P') z' c) == qsum (map2 (fun x g => x * Vf g (base p) T P) z c).
+Proof. intros ET EP H. revert z' z H c. induction z' as [|a z' IH]; intros [|b z] H c; simpl in H; try discriminate.
+  - destruct c; reflexivity.
+  - apply andb_prop in H. destruct H as (H1 & H2). apply Qeq_bool_iff in H1.
+    destruct c as [|g c]; simpl; [reflexivity|].
+    rewrite (IH z H2 c), H1, (Vf_ext g (base p) T' T P' P ET EP). reflexivity.
+Qed.
+
+Lemma vmix_key_ext c k' k : pkey_eqb k' k = true -> vmix_key Vf c k' == vmix_key Vf c k.
+Proof.
+  unfold pkey_eqb. intros H. apply andb_prop in H. destruct H as (H & HP). apply andb_prop in H. destruct H as (H & HT).
+  apply andb_prop in H. destruct H as (_ & HR). apply Qeq_bool_iff in HT. apply Qeq_bool_iff in HP.
+  unfold vmix_key. revert HR. generalize (k_rows k). generalize (k_rows k').
+  induction l as [|[px zx] l IH]; intros [|[py zy] m] HR; simpl in HR; try discriminate; simpl; [reflexivity|].
+  apply andb_prop in HR. destruct HR as (H1 & H2). unfold prow_eqb in H1. cbn [fst snd] in H1.
+  apply andb_prop in H1. destruct H1 as (HP1 & HV).
+  apply phase_eqb_eq in HP1. subst py. rewrite (IH m H2).
+  rewrite (vmix_row_ext' c px (k_T k) (k_T k') (k_P k) (k_P k') zx zy HT HP HV). reflexivity.
+Qed.
+
+Definition PM U : Prop := forall i k v s, pm_get U i = Some (k, v) -> nth_error (streams (uh U)) i = Some s ->
+  v == vmix_key Vf (chems pkgs (pkg s)) k.
+
+Lemma PM_ext U U' : PKP (uh U) (uh U') -> u_pm U' = u_pm U -> PM U -> PM U'.
+Proof.
+  intros PK E P i k v s' G H. destruct (PK i s' H) as (s & Hs & EP). rewrite EP.
+  apply (P i k v s); auto. unfold pm_get in *. rewrite <- E. exact G.
+Qed.
+
+Lemma pm_get_set U i x j :
+  pm_get (pm_set U i x) j = pm_get U j \/ (j = i /\ pm_get (pm_set U i x) j = x).
+Proof.
+  unfold pm_get, pm_set; simpl. destruct (Nat.eq_dec i j) as [E|N].
+  - subst j. destruct (Nat.lt_ge_cases i (length (u_pm U))) as [L|G].
+    + right. split; auto. apply nth_upd_eq; auto.
+    + left. clear - G. revert i G. induction (u_pm U) as [|a l IH]; intros [|i] G; simpl in *; auto; try lia. apply IH. lia.
+  - left. apply nth_upd_neq. auto.
+Qed.
+
+Lemma PM_reset U i : PM U -> PM (pm_set U i None).
+Proof.
+  intros P j k v s G H. destruct (pm_get_set U i None j) as [E|(E1 & E2)].
+  - rewrite E in G. apply (P j k v s); auto.
+  - rewrite E2 in G. discriminate.
+Qed.
+
+Lemma F_volU_PM U i s : PM U -> nth_error (streams (uh U)) i = Some s -> PM (fst (F_volU Vf pkgs U i s)).
+Proof.
+  intros P Hs. unfold F_volU. destruct (qzerob (F_mol (uh U) s)); [exact P|].
+  assert (MISS : PM (pm_set U i (Some (key_of (uh U) s, vmix_key Vf (chems pkgs (pkg s)) (key_of (uh U) s))))).
+  { intros j k v s2 G H. destruct (pm_get_set U i (Some (key_of (uh U) s, vmix_key Vf (chems pkgs (pkg s)) (key_of (uh U) s))) j) as [E|(E1 & E2)].
+    - rewrite E in G. apply (P j k v s2); auto.
+    - subst j. rewrite E2 in G. inversion G; subst. simpl in H. rewrite Hs in H. inversion H; subst. reflexivity. }
+  destruct (pm_get U i) as [[k' v]|]; [|exact MISS].
+  destruct (pkey_eqb k' (key_of (uh U) s)); [exact P|exact MISS].
+Qed.
+
+Lemma F_volU_fresh U i s : PM U -> nth_error (streams (uh U)) i = Some s ->
+  snd (F_volU Vf pkgs U i s) == F_vol Vf pkgs (uh U) s.
+Proof.
+  intros P Hs. unfold F_volU, F_vol. destruct (qzerob (F_mol (uh U) s)); [reflexivity|].
+  unfold vmix.
+  destruct (pm_get U i) as [[k' v]|] eqn:G; [|reflexivity].
+  destruct (pkey_eqb k' (key_of (uh U) s)) eqn:E; [|reflexivity].
+  cbn [snd]. rewrite (P i k' v s G Hs). rewrite (vmix_key_ext _ _ _ E). reflexivity.
+Qed.
+
+Lemma totalU_PM U i s w : PM U -> nth_error (streams (uh U)) i = Some s -> PM (fst (totalU Vf MWf pkgs U i s w)).
+Proof. intros P Hs. destruct w; simpl; auto. apply F_volU_PM; auto. Qed.
+
+Lemma set_totalU_PM U i s w v : PM U -> nth_error (streams (uh U)) i = Some s -> PM (fst (set_totalU Vf MWf pkgs U i s w v)).
+Proof.
+  intros P Hs. unfold set_totalU. pose proof (totalU_PM U i s w P Hs) as P1.
+  destruct (totalU_uh U i s w) as (A & _).
+  destruct (totalU Vf MWf pkgs U i s w) as [U1 F]. cbn [fst] in *.
+  assert (SC : forall f, PM (with_heap U1 (map_rows (uh U1) f (rowrefs (uh U1) s)))).
+  { intros f. eapply PM_ext; [| |exact P1]; [|reflexivity]. apply PKP_same. simpl. apply map_rows_streams. }
+  unfold scale_all, empty_all.
+  destruct w; repeat match goal with |- context [if ?c then _ else _] => destruct c end; cbn [fst]; try exact P1; apply SC.
+Qed.
+
+Lemma PM_stepU U o : PM U -> PM (fst (stepU Vf MWf pkgs utab U o)).
+Proof.
+  intros P.
+  assert (D : (forall i k, o <> OThermo i k) -> PM (fst (liftU U (step Vf MWf pkgs utab (uh U) o)))).
+  { intros NT. eapply PM_ext; [| |exact P]; [|reflexivity]. unfold liftU. cbn [fst uh with_heap]. apply step_PKP. exact NT. }
+  unfold stepU.
+  destruct o as [ |i w|i w|i|i u r k|i u r k v|i u|i u v|i w r k v|i w v|i v|i v|i p|i l|i j f p t|i|i j|i k|i k|i w u r k|i w u r k v|i j w|i w r1 r2];
+    try (apply D; intros; discriminate);
+    (destruct (nth_error (streams (uh U)) i) as [s|] eqn:Hs; [|try exact P]).
+  - pose proof (totalU_PM U i s w P Hs) as X. destruct (totalU Vf MWf pkgs U i s w) as [U1 x]. exact X.
+  - destruct (flow_lookup_uh U u) as (A & B). destruct (flow_lookup utab U u) as [U1 [[w f]|e]]; cbn [fst] in *.
+    + eapply PM_ext; [| |exact P]; [|exact B]. apply PKP_same. unfold liftU, lift. cbn [fst uh with_heap]. rewrite A.
+      pose proof (get_item_streams (uh U) s w r k) as X. destruct (get_item Vf MWf pkgs (uh U) s w r k) as [h1 [x|e]]; exact X.
+    + eapply PM_ext; [| |exact P]; [|exact B]. apply PKP_same. rewrite A. reflexivity.
+  - destruct (flow_lookup_uh U u) as (A & B). destruct (flow_lookup utab U u) as [U1 [[w f]|e]]; cbn [fst] in *.
+    + eapply PM_ext; [| |exact P]; [|exact B]. apply PKP_same. unfold liftU. cbn [fst uh with_heap]. rewrite A. apply set_item_streams.
+    + eapply PM_ext; [| |exact P]; [|exact B]. apply PKP_same. rewrite A. reflexivity.
+  - destruct (flow_lookup_uh U u) as (A & B). destruct (flow_lookup utab U u) as [U1 [[w f]|e]] eqn:FL; cbn [fst] in *.
+    + assert (P1 : PM U1) by (eapply PM_ext; [| |exact P]; [apply PKP_same; rewrite A; reflexivity|exact B]).
+      assert (Hs1 : nth_error (streams (uh U1)) i = Some s) by (rewrite A; exact Hs).
+      pose proof (totalU_PM U1 i s w P1 Hs1) as X. destruct (totalU Vf MWf pkgs U1 i s w) as [U2 x]. exact X.
+    + eapply PM_ext; [| |exact P]; [|exact B]. apply PKP_same. rewrite A. reflexivity.
+  - destruct (flow_lookup_uh U u) as (A & B). destruct (flow_lookup utab U u) as [U1 [[w f]|e]]; cbn [fst] in *.
+    + assert (P1 : PM U1) by (eapply PM_ext; [| |exact P]; [apply PKP_same; rewrite A; reflexivity|exact B]).
+      apply set_totalU_PM; auto. rewrite A; exact Hs.
+    + eapply PM_ext; [| |exact P]; [|exact B]. apply PKP_same. rewrite A. reflexivity.
+  - apply set_totalU_PM; auto.
+  - assert (X : PM (fst (liftU U (step Vf MWf pkgs utab (uh U) (OPhases i l))))) by (apply D; intros; discriminate).
+    destruct (liftU U (step Vf MWf pkgs utab (uh U) (OPhases i l))) as [U1 x]. cbn [fst] in *.
+    match goal with |- context [if ?c then _ else _] => destruct c end; [apply PM_reset|]; exact X.
+  - assert (X : PM (fst (liftU U (step Vf MWf pkgs utab (uh U) (OUnlink i))))) by (apply D; intros; discriminate).
+    destruct (liftU U (step Vf MWf pkgs utab (uh U) (OUnlink i))) as [U1 x]. cbn [fst] in *.
+    destruct (is_none x); [apply PM_reset|]; exact X.
+  - assert (X : PM (fst (liftU U (step Vf MWf pkgs utab (uh U) (OUnlink i))))) by (apply D; intros; discriminate).
+    destruct (liftU U (step Vf MWf pkgs utab (uh U) (OUnlink i))) as [U1 x]. cbn [fst] in *.
+    destruct (is_none x); [apply PM_reset|]; exact X.
+  - (* _reset_thermo: the package of stream i changes and its memo is dropped *)
+    unfold liftU, step. rewrite Hs. unfold reset_thermo.
+    destruct (Nat.eqb (pkg s) k) eqn:Q; cbn [fst snd].
+    + eapply PM_ext; [| |exact P]; [apply PKP_same|]; reflexivity.
+    + destruct (reset_none_shape (uh U) i s k) as (a & s1 & S1 & _).
+      set (h1 := fst (reset_chemicals pkgs (uh U) i s k None)) in *.
+      intros j kk v s2 G H.
+      change (uh (pm_set (with_heap U h1) i None)) with h1 in H. rewrite S1 in H.
+      unfold pm_get, pm_set in G. cbn [u_pm with_heap] in G.
+      destruct (Nat.eq_dec j i) as [QQ|N].
+      * subst j. exfalso. destruct (Nat.lt_ge_cases i (length (u_pm U))) as [L|GG].
+        -- rewrite nth_upd_eq in G by auto. discriminate.
+        -- rewrite nth_overflow in G by (rewrite upd_length; auto). discriminate.
+      * rewrite nth_upd_neq in G by auto. rewrite nth_error_upd_other in H by auto. apply (P j kk v s2); auto.
+  - destruct (cfactor_uh U w u) as (A & B). destruct (cfactor utab U w u) as [U1 [f|e]]; cbn [fst] in *.
+    + eapply PM_ext; [| |exact P]; [|exact B]. apply PKP_same. unfold liftU, lift. cbn [fst uh with_heap]. rewrite A.
+      pose proof (get_item_streams (uh U) s w r k) as X. destruct (get_item Vf MWf pkgs (uh U) s w r k) as [h1 [x|e]]; exact X.
+    + eapply PM_ext; [| |exact P]; [|exact B]. apply PKP_same. cbn [uh with_heap]. rewrite A. apply touch_view_streams.
+  - destruct (cfactor_uh U w u) as (A & B). destruct (cfactor utab U w u) as [U1 [f|e]]; cbn [fst] in *.
+    + eapply PM_ext; [| |exact P]; [|exact B]. apply PKP_same. unfold liftU. cbn [fst uh with_heap]. rewrite A. apply set_item_streams.
+    + eapply PM_ext; [| |exact P]; [|exact B]. apply PKP_same. cbn [uh with_heap]. rewrite A. apply touch_view_streams.
+Qed.
+
+Lemma PM_runU ops : forall U, PM U -> PM (fst (runU Vf MWf pkgs utab U ops)).
+Proof.
+  induction ops as [|o ops IH]; intros U I; simpl; auto.
+  pose proof (PM_stepU U o I) as I1. destruct (stepU Vf MWf pkgs utab U o) as [U1 x]. cbn [fst] in I1.
+  specialize (IH U1 I1). destruct (runU Vf MWf pkgs utab U1 ops) as [U2 xs]. exact IH.
+Qed.
+Lemma PM_buildU l : PM (buildU l).
+Proof.
+  intros i k v s G H. unfold pm_get, buildU in G. simpl in G.
+  destruct (Nat.lt_ge_cases i (length l)) as [L|GG].
+  - rewrite nth_repeat in G. discriminate.
+  - rewrite nth_overflow in G by (rewrite repeat_length; auto). discriminate.
+Qed.
+
+(* ---------- a view written with another view: the written (mass / volumetric) values are what the destination then holds ---------- *)
+Lemma xfer_mass_spec : forall vals mws mwd, length mws = length vals -> length mwd = length vals ->
+  (forall b, In b mwd -> ~ b == 0) ->
+  forall k, nthq (xfer_mass mws mwd vals) k * nthq mwd k == nthq vals k * nthq mws k.
+Proof.
+  induction vals as [|x t IH]; intros [|a ms] [|b md] L1 L2 NZ k; simpl in *; try discriminate.
+  - rewrite !nthq_nil. ring.
+  - destruct k as [|k]; unfold nthq; simpl.
+    + destruct (qzerob x) eqn:Z.
+      * apply qzerob_true in Z. rewrite Z. ring.
+      * field. apply NZ. left; reflexivity.
+    + apply (IH ms md); [lia|lia|]. intros c Hc. apply NZ. right; exact Hc.
+Qed.
+
+Lemma xfer_vol_spec h vo vs pko pks : vv_pkg vo = pko -> vv_pkg vs = pks ->
+  forall vals ro rs k, vrow_ok pko ro -> vrow_ok pks rs ->
+  forall j, exists To Po Td Pd,
+    near To (cur_T h vo) /\ near Po (cur_P h vo) /\ near Td (cur_T h vs) /\ near Pd (cur_P h vs) /\
+    nthq (fst (fst (xfer_vol Vf pkgs h vo vs ro rs k vals))) j * Vat h pks (vr_src rs) (k + j) Td Pd
+    == nthq vals j * Vat h pko (vr_src ro) (k + j) To Po.
+Proof.
+  intros PO PS. induction vals as [|x t IH]; intros ro rs k OKo OKs j.
+  - exists (cur_T h vo), (cur_P h vo), (cur_T h vs), (cur_P h vs).
+    repeat (split; [apply near_refl|]). simpl. rewrite !nthq_nil. ring.
+  - cbn [xfer_vol]. destruct (qzerob x) eqn:Z.
+    + specialize (IH ro rs (S k) OKo OKs).
+      destruct (xfer_vol Vf pkgs h vo vs ro rs (S k) t) as [[o ro'] rs'] eqn:E. cbn [fst snd] in *.
+      destruct j as [|j].
+      * exists (cur_T h vo), (cur_P h vo), (cur_T h vs), (cur_P h vs).
+        repeat (split; [apply near_refl|]). unfold nthq; simpl. apply qzerob_true in Z. rewrite Z. ring.
+      * destruct (IH j) as (To & Po & Td & Pd & N1 & N2 & N3 & N4 & V). exists To, Po, Td, Pd.
+        repeat (split; [assumption|]). unfold nthq in *; simpl.
+        replace (k + S j)%nat with (S k + j)%nat by lia. exact V.
+    + destruct (vfactor_ok h vo ro k pko PO OKo) as ((To & Po & N1 & N2 & FV) & FO & FS).
+      destruct (vfactor Vf pkgs h vo ro k) as [Vo ro1] eqn:EV. cbn [fst snd] in *.
+      destruct (vfactor_ok h vs rs k pks PS OKs) as ((Td & Pd & N3 & N4 & FV') & FO' & FS').
+      destruct (vfactor Vf pkgs h vs rs k) as [Vd rs1] eqn:EV'. cbn [fst snd] in *.
+      specialize (IH ro1 rs1 (S k) FO FO').
+      destruct (xfer_vol Vf pkgs h vo vs ro1 rs1 (S k) t) as [[o ro'] rs'] eqn:E. cbn [fst snd] in *.
+      destruct j as [|j].
+      * exists To, Po, Td, Pd. repeat (split; [assumption|]). unfold nthq; simpl. rewrite Nat.add_0_r.
+        rewrite <- FV, <- FV'. field.
+        rewrite FV'. unfold Vat. intros Q0.
+        apply (Vf_nonzero (gid pkgs pks k) (base (src_phase h (vr_src rs))) Td Pd). lra.
+      * destruct (IH j) as (To' & Po' & Td' & Pd' & M1 & M2 & M3 & M4 & V). exists To', Po', Td', Pd'.
+        repeat (split; [assumption|]). unfold nthq in *; simpl.
+        rewrite <- (vsrc_src _ _ FS), <- (vsrc_src _ _ FS').
+        replace (k + S j)%nat with (S k + j)%nat by lia. exact V.
 Qed.
 
 End Proofs.
